@@ -96,7 +96,8 @@ def relational(cases, impl):
 
 
 SWEEP = [(b'*IDN?\n', b'"MICROSCPI,TEST,1,1.0"\n'), (b'ARB?\n', b'#15a\nb;c\n'), (b'CHAR?\n', b'VOLT\n'),
-         (b'ECHO:U8? 7\n', b'7\n'), (b'ECHO:BOOL? ON\n', b'1\n')]
+         (b'ECHO:U8? 7\n', b'7\n'), (b'ECHO:BOOL? ON\n', b'1\n'), (b'ECHO:F64? 1e40\n', b'1' + b'0' * 40 + b'\n'),
+         (b'ECHO:F64? -2.5e-33\n', b'-0.' + b'0' * 32 + b'25\n'), (b'ECHO:F32? 1e38\n', b'1' + b'0' * 38 + b'\n'), (b'LONG?\n', b'"' + b'x' * 40 + b'"\n')]
 
 
 def sweep_oracle(line, case):
@@ -120,7 +121,7 @@ def sweep_cases(tier):
     out = []
     gid = 10 ** 6
     for msg, resp in SWEEP:
-        for n in list(range(1, 25)) + [32]:
+        for n in list(range(1, 25)) + [32, 47, 64, 100]:
             if len(msg) > n or len(resp) > n:
                 continue
             for sched in ('-', ','.join(['1'] * len(msg))):
